@@ -2,6 +2,7 @@
 
 from __future__ import annotations
 
+import asyncio
 import inspect
 import random
 
@@ -13,6 +14,7 @@ from xknx.telegram.address import GroupAddress, InternalGroupAddress, parse_devi
 from xknx.telegram.apci import GroupValueRead, GroupValueResponse, GroupValueWrite
 
 from vlib.core_harness import (
+    ProbeDevice,
     bounded,
     fake,
     inject_incoming,
@@ -37,7 +39,10 @@ LEVEL_NOTE = (
     "Trusted: Device.has_group_address as the naive scan (cross-checked against the addresses the harness configured). Judged: "
     "iteration order/len/contains of the registry, devices_by_group_address == scan for every pool address after every operation, "
     "process-call list per telegram == scan (a dispatch cut short because a device class raised is reported with its own mechanism), "
-    "refused add/remove raise and leave registry, index, device callbacks and state-updater registrations unchanged."
+    "refused add/remove raise and leave registry, index, device callbacks and state-updater registrations unchanged; after an add "
+    "that fails half way (sync_state=' ' makes the tracker parser raise) the registry is unchanged or fully consistent (what it lists "
+    "is indexed); a later device of the address removed from an earlier device's device_updated callback during dispatch does not "
+    "process that telegram (self-removal / removal of an earlier device shifts the live list: not generated)."
 )
 SHARDS = {"quick": 1, "thorough": 16}
 TIMEOUT = {"quick": 300, "thorough": 3000}
@@ -47,6 +52,14 @@ CLASSES = ["BinarySensor", "Climate", "ClimateMode", "Cover", "DateDevice", "Dat
 POOL = ["1/0/1", "1/0/2", "1/0/3", "1/1/1", "2/3/4", "2/3/5", "31/7/255", "0/0/1", "i-one", "i-two"]
 VALUE_TYPES = {"Sensor": ("temperature", "percent", "pulse_2byte", "string"), "NumericValue": ("temperature", "percent", "pulse_2byte"),
                "ExposeSensor": ("temperature", "binary", "string", "percent"), "Notification": (None, "string", "latin_1")}
+
+
+class NotifyingProbe(ProbeDevice):
+    """User-defined device that reports every processed write through the device_updated callbacks."""
+
+    def process_group_write(self, telegram):  # type: ignore[override]
+        super().process_group_write(telegram)
+        self.after_update()
 
 
 def address_kwargs(cls) -> list[str]:
@@ -118,7 +131,8 @@ def gen_case(rng: random.Random) -> dict:
     ops = []
     start_at = rng.randint(0, 8)
     for i in range(rng.randint(10, 40)):
-        k = rng.choices(("add", "add_dup", "remove", "remove_unreg", "readd", "dispatch"), (30, 10, 14, 8, 12, 26))[0]
+        k = rng.choices(("add", "add_dup", "remove", "remove_unreg", "readd", "dispatch", "reentrant", "add_failing"),
+                        (30, 10, 14, 8, 12, 26, 5, 4))[0]
         op = {"op": k, "pick": rng.randrange(1 << 16)}
         if k == "add":
             op["spec"] = gen_device_spec(rng)
@@ -231,7 +245,8 @@ def run_one(ctx, case_seed: str) -> None:
             elif k == "remove" and registered:
                 d = registered.pop(op["pick"] % len(registered))
                 xknx.devices.async_remove(d)
-                removed.append(d)
+                if not d.name.startswith("Failing"):
+                    removed.append(d)  # (a device whose add fails is not offered for re-adding)
                 trace.append(("remove", d.name))
                 ctx.count("removes")
                 check_index("remove:" + type(d).__name__)
@@ -267,14 +282,78 @@ def run_one(ctx, case_seed: str) -> None:
                     ctx.violation(f"refused-{k}-changed-" + "+".join(diff), dict(wit, device=d.name, changed=diff, trace=trace),
                                   f"refused {k} of {d.name} changed {diff}")
                 check_index(k + ":" + type(d).__name__)
-            elif k == "dispatch":
+            elif k == "add_failing":
+                # an add that fails half way for a real reason: sync_state=" " makes the tracker option parser raise while the
+                # device registers with the state updater.  Afterwards the registry must be unchanged or fully consistent.
+                a = POOL[op["pick"] % 8]
+                d = D.Switch(xknx, f"Failing{len(all_devs)}", group_address_state=a, sync_state=" ")
+                all_devs.append(d)
+                conf[id(d)] = {parse_device_group_address(a)}
+                raised = None
+                try:
+                    xknx.devices.async_add(d)
+                except Exception as exc:  # noqa: BLE001
+                    raised = type(exc).__name__
+                ctx.count("failed_adds" if raised else "failing_add_did_not_raise_recorded")
+                if d in xknx.devices:
+                    registered.append(d)  # the registry claims it: then it must be indexed like any other device
+                    ctx.count("failed_add_left_device_registered")
+                else:
+                    removed.append(d)
+                trace.append(("add_failing", d.name, raised))
+                check_index("add_failing:Switch")
+            elif k in ("dispatch", "reentrant"):
                 if not started:
                     await xknx.start()
                     started = True
+                telegrams = op.get("telegrams")
+                reentrant_cb = None
+                if k == "reentrant":
+                    # an earlier device's device_updated callback removes a LATER device of the same address during dispatch
+                    a = POOL[op["pick"] % len(POOL)]
+                    probe = NotifyingProbe(xknx, f"Probe{len(all_devs)}", [_addr(a)])
+                    all_devs.append(probe)
+                    conf[id(probe)] = {_addr(a)}
+                    xknx.devices.async_add(probe)
+                    registered.append(probe)
+                    trace.append(("add", probe.name, [a]))
+                    later = [d for d in registered if d is not probe and d.has_group_address(_addr(a)) and not d.name.startswith("Failing")]
+                    if later:
+                        victim = later[(op["pick"] >> 4) % len(later)]
+                        xknx.devices.async_remove(victim)
+                        registered.remove(victim)
+                        xknx.devices.async_add(victim)
+                        registered.append(victim)
+                        trace.append(("remove+readd", victim.name))
+                    else:
+                        victim = D.Switch(xknx, f"Victim{len(all_devs)}", group_address=a, sync_state=False)
+                        all_devs.append(victim)
+                        conf[id(victim)] = {parse_device_group_address(a)}
+                        xknx.devices.async_add(victim)
+                        registered.append(victim)
+                        trace.append(("add", victim.name, [a]))
+                    check_index("reentrant-setup")
+                    # let the reads that the (re-)added devices' trackers put on the queue right away go through first
+                    for _ in range(6):
+                        await asyncio.sleep(0)
+                    await bounded(xknx.join(), 10000.0)
+                    armed = [True]
+
+                    def reentrant_cb(dev, probe=probe, victim=victim, armed=armed):
+                        if dev is probe and armed[0]:
+                            armed[0] = False
+                            xknx.devices.async_remove(victim)
+                            registered.remove(victim)
+                            removed.append(victim)
+                            trace.append(("remove-from-device-callback", victim.name))
+                            ctx.count("later_device_removed_from_an_earlier_devices_callback")
+
+                    xknx.devices.register_device_updated_cb(reentrant_cb)
+                    telegrams = [(False, a, "write", "b", [1])]
                 injected = []
                 with watch_device_process() as plog:
                     n_ho = len(fake(xknx).handoffs)
-                    for outgoing, a, pk, vk, data in op["telegrams"]:
+                    for outgoing, a, pk, vk, data in telegrams:
                         seq += 1
                         value = DPTBinary(data[0] & 0x3F) if vk == "b" else DPTArray(tuple(data))
                         p = GroupValueWrite(value) if pk == "write" else GroupValueResponse(value) if pk == "response" else GroupValueRead()
@@ -309,6 +388,9 @@ def run_one(ctx, case_seed: str) -> None:
                         continue
                     exp = scan(a)
                     got = by_tg.get(pid, [])
+                    if reentrant_cb is not None and pid not in injected_ids:
+                        ctx.count("other_telegrams_during_reentrant_dispatch_not_judged")
+                        continue  # processed before or after the removal: its expectation depends on when
                     ctx.count("telegrams_dispatched")
                     if pid not in injected_ids:
                         ctx.count("telegrams_generated_by_devices")
@@ -330,11 +412,17 @@ def run_one(ctx, case_seed: str) -> None:
                         ctx.violation("dispatch-order-differs-from-registration-order", w, f"telegram to {a} dispatched in the wrong order")
                     elif len(set(gids)) < len(gids):
                         ctx.violation("device-processed-telegram-twice", w, f"telegram to {a}: a device processed it more than once")
+                    elif set(gids) - {id(d) for d in exp} and reentrant_cb is not None:
+                        ctx.violation("device-removed-before-its-turn-still-processed-telegram", w,
+                                      f"telegram to {a}: a device removed from an earlier device's callback during dispatch still processed it")
                     elif set(gids) - {id(d) for d in exp}:
                         ctx.violation("telegram-dispatched-to-wrong-device", w, f"telegram to {a} reached a device that is not registered for it")
                     else:
                         ctx.violation("registered-device-missed-telegram", w, f"telegram to {a}: devices {[d.name for d in exp]} expected, got {[d.name for d, _ in got]}")
-                trace.append(("dispatch", len(op["telegrams"])))
+                trace.append(("dispatch", len(telegrams)))
+                if reentrant_cb is not None:
+                    xknx.devices.unregister_device_updated_cb(reentrant_cb)
+                    check_index("reentrant-remove")
         if started:
             ok, _ = await bounded(xknx.stop(), 10000.0)
             if not ok:
@@ -355,6 +443,7 @@ def run(ctx):
                 "(operation-kind string, first device classes)")
     ctx.require("adds", "readds", "removes", "refused_add_dup", "refused_remove_unreg", "index_lookups_shared_address",
                 "dispatch_lists_equal", "dispatch_to_several_devices", "telegrams_generated_by_devices", "started_midway",
+                "later_device_removed_from_an_earlier_devices_callback", "failed_adds",
                 *("add_" + c for c in CLASSES))
     n = ctx.scale(1200, 96000)
     for i in range(n):
